@@ -128,7 +128,8 @@ gh0 == [mown |-> [o \in Obj |-> 0],      \* descriptor holding mutex o (user lev
         klive |-> {},                      \* keys handed out and not deleted (user view)
         kdt |-> [k \in 0..(NKeys - 1) |-> 0], \* destructor registered with the key (0 = none)
         kval |-> [d \in D |-> {}],         \* kval[d] = set of <<key, value>> with a non-NULL value
-        kpend |-> [d \in D |-> {}]]        \* destructor calls <<destructor, value>> owed by a terminating thread
+        kpend |-> [d \in D |-> {}],        \* destructor calls <<destructor, value>> owed by a terminating thread
+        kopt |-> [d \in D |-> {}]]         \* calls that may or may not happen: the key's deletion overlaps the termination
 CoreInit ==
   /\ cur = cur0 /\ got = got0 /\ cb = cb0 /\ runq = runq0 /\ th = th0 /\ lk = lk0 /\ stk = stk0
   /\ freeD = freeD0 /\ freeS = freeS0 /\ flS = flS0
@@ -318,7 +319,7 @@ DescAlloc(w, rank, c, l, fresh) ==
           /\ freeD' = [freeD EXCEPT ![w] = Tail(@)] /\ UNCHANGED <<nD, nL>>
      ELSE /\ fresh = 1 /\ c = nD + 1 /\ l = nL + 1
           /\ nD' = nD + 1 /\ nL' = nL + 1 /\ freeD' = freeD
-  /\ gh' = [gh EXCEPT !.kval[c] = {}, !.kpend[c] = {}]      \* a new thread starts with no thread-specific values
+  /\ gh' = [gh EXCEPT !.kval[c] = {}, !.kpend[c] = {}, !.kopt[c] = {}]      \* a new thread starts with no thread-specific values
   /\ UNCHANGED <<cur, got, cb, runq, lk, stk, freeS, flS, nS, anw, tg, bad, mx, sq, ob>>
 
 \* stack allocation. kind 0: default size from the free list, 1: default size fresh,
@@ -426,12 +427,17 @@ UBodyStart(w, tag, tok) ==
   /\ UNCHANGED <<cur, got, cb, runq, lk, stk, freeD, freeS, flS, nD, nS, nL, anw, sv>>
 
 \* the start function returns v (kind 0) or calls the exit routine with v (kind 1)
-Owed(t) == {<<gh.kdt[p[1]], p[2]>> : p \in {q \in gh.kval[t] : q[1] \in gh.klive /\ gh.kdt[q[1]] # 0}}
+\* keys whose deletion is in flight (called, not yet returned): a thread terminating meanwhile may or may not
+\* run their destructors (either order of the two operations is a legal linearisation)
+Deleting == {th[u].pc.x : u \in {x \in D : th[x].pc.k \in {"kd00", "kd0", "kd1"}}}
+Owed(t) == {<<gh.kdt[p[1]], p[2]>> : p \in {q \in gh.kval[t] : q[1] \in gh.klive \ Deleting /\ gh.kdt[q[1]] # 0}}
+Opt(t)  == {<<gh.kdt[p[1]], p[2]>> : p \in {q \in gh.kval[t] : q[1] \in gh.klive \cap Deleting /\ gh.kdt[q[1]] # 0}}
+PairsOf(d, k) == {<<gh.kdt[k], p[2]>> : p \in {q \in gh.kval[d] : q[1] = k}}
 UBodyEnd(w, tag, v, kind) ==
   /\ tag # 0
   /\ \E t \in D : At(w, t, "user") /\ th[t].tag = tag
         /\ th' = [th EXCEPT ![t].pc = P("fin0", v, 0, 0), ![t].res = v]
-        /\ gh' = [gh EXCEPT !.kpend[t] = Owed(t)]
+        /\ gh' = [gh EXCEPT !.kpend[t] = Owed(t), !.kopt[t] = Opt(t)]
   /\ tg' = [tg EXCEPT ![tag].endv = v, ![tag].ended = TRUE, ![tag].cell = 5000 + tag]
   /\ UNCHANGED <<cur, got, cb, runq, lk, stk, freeD, freeS, flS, nD, nS, nL, anw, bad, mx, sq, ob>>
 
@@ -439,7 +445,7 @@ UBodyEnd(w, tag, v, kind) ==
 Cancelled(w, t) ==
   /\ At(w, t, "tc2") /\ tg[th[t].tag].creq
   /\ th' = [th EXCEPT ![t].pc = P("fin0", -1, 0, 0), ![t].res = -1]
-  /\ gh' = [gh EXCEPT !.kpend[t] = Owed(t)]
+  /\ gh' = [gh EXCEPT !.kpend[t] = Owed(t), !.kopt[t] = Opt(t)]
   /\ tg' = [tg EXCEPT ![th[t].tag].endv = -1, ![th[t].tag].ended = TRUE, ![th[t].tag].cell = 0]
   /\ UNCHANGED <<cur, got, cb, runq, lk, stk, freeD, freeS, flS, nD, nS, nL, anw, bad, mx, sq, ob>>
 
@@ -1082,7 +1088,12 @@ UKeyCreateRet(w, tag, rc, k) ==
 UKeyDeleteCall(w, tag, k) ==
   /\ \E t \in D : At(w, t, "user") /\ th[t].tag = tag
         /\ th' = SetPc(t, IF KeyOK(k) THEN P("kd00", k, 0, 0) ELSE P("kd9", k, 1, 0))
-  /\ UNCHANGED <<cur, got, cb, runq, ledger, tg, bad, sv>>
+  \* destructor calls for k still owed by threads that are terminating right now become optional
+  /\ gh' = IF KeyOK(k)
+           THEN [gh EXCEPT !.kpend = [d \in D |-> IF th[d].pc.k = "fin0" THEN gh.kpend[d] \ PairsOf(d, k) ELSE gh.kpend[d]],
+                           !.kopt  = [d \in D |-> IF th[d].pc.k = "fin0" THEN gh.kopt[d] \cup (gh.kpend[d] \cap PairsOf(d, k)) ELSE gh.kopt[d]]]
+           ELSE gh
+  /\ UNCHANGED <<cur, got, cb, runq, ledger, tg, bad, mx, sq, ob>>
 KdLd(w, k, h) ==
   /\ h = gh.kfree
   /\ \E t \in D : At(w, t, "kd0") /\ th[t].pc.x = k /\ th' = SetPc(t, [th[t].pc EXCEPT !.k = "kd1", !.z = h])
@@ -1113,8 +1124,8 @@ UGetSpecific(w, tag, k, v) ==
 \* a destructor call observed in the terminating thread: it must be one that is owed, exactly once
 UDtor(w, tag, dt, v) ==
   /\ \E t \in D : At(w, t, "fin0") /\ th[t].tag = tag
-        /\ gh' = [gh EXCEPT !.kpend[t] = @ \ {<<dt, v>>}]
-        /\ bad' = IF <<dt, v>> \notin gh.kpend[t] /\ ~(v = 0 /\ \E k \in gh.klive : gh.kdt[k] = dt)   \* (a call with NULL for a live key is tolerated)
+        /\ gh' = [gh EXCEPT !.kpend[t] = @ \ {<<dt, v>>}, !.kopt[t] = IF <<dt, v>> \in gh.kpend[t] THEN @ ELSE @ \ {<<dt, v>>}]
+        /\ bad' = IF <<dt, v>> \notin (gh.kpend[t] \cup gh.kopt[t]) /\ ~(v = 0 /\ \E k \in gh.klive : gh.kdt[k] = dt)   \* (a call with NULL for a live key is tolerated)
                   THEN Fail("C11: destructor called with a value it is not owed (wrong value, no destructor, deleted key, NULL, or twice)") ELSE bad
   /\ UNCHANGED <<cur, got, cb, runq, th, ledger, tg, mx, sq, ob>>
 
